@@ -378,6 +378,17 @@ def build_input(spec):
     return model.ReconciliationInput.from_dict(doc)
 
 
+E1_PROPS = ("C01", "C02", "C03", "C04", "C05", "C08", "C09", "C10")
+
+
+def _costs_of(rec_input):
+    model = _m["model"]
+    names = {model.NodeEvent.SPECIATION: "spe", model.NodeEvent.DUPLICATION: "dup",
+             model.NodeEvent.HORIZONTAL_TRANSFER: "hgt", model.EdgeEvent.FULL_LOSS: "floss",
+             model.EdgeEvent.SEGMENTAL_LOSS: "sloss"}
+    return {names[k]: float(v) for k, v in rec_input.costs.items() if k in names}
+
+
 class Slot:
     """One caller-owned input object of the history plus everything known about it."""
 
@@ -531,6 +542,15 @@ def check_outputs(run, slot, algo, policy, outs, where, regime):
                       f"{where}: {algo} returned ordered={out.ordered}")
         got_cost = out.cost()
         if not (got_cost == recount):
+            # before blaming the model: is the returned object a solution of the problem the
+            # caller gave?  (a refined or re-read input that carries other unit costs makes
+            # cost() evaluate another problem - a defect of the code under test, not of ours)
+            want = spec_costs(spec)
+            have = _costs_of(out.input)
+            run.check(have == {k: float(v) for k, v in want.items()}, E1_PROPS,
+                      f"{run.focus or prop}.solution-of-another-problem",
+                      lambda: f"{where}: {algo}({policy}) returned a solution whose input carries "
+                              f"unit costs {have}, the caller's input has {want}; input {spec}")
             raise HarnessError(
                 f"MODEL-DISAGREEMENT {where}: package cost() = {got_cost}, independent recount "
                 f"= {recount} for {canon.output_key(out, labelled)} on {spec}")
@@ -1325,6 +1345,13 @@ def execute(case, focus=None):
         e2_lazy.execute_enum(run, case, _m)
         return run
     slots = [Slot(spec) for spec in case["inputs"]]
+    for slot in slots:
+        # the object built from the documented dictionary form is the problem that was written
+        have = _costs_of(slot.obj)
+        want = {k: float(v) for k, v in spec_costs(slot.spec).items()}
+        run.check(have == want, E1_PROPS, f"{run.focus or 'C04'}.input-document-misread",
+                  lambda: f"from_dict built an input with unit costs {have} from a document "
+                          f"that says {want}")
     regime = case["regime"]
     for idx, op in enumerate(case["ops"]):
         kind = op["op"]
